@@ -209,6 +209,11 @@ func RunConcScenario(sc *Scenario) (vd *Verdict) {
 		for oi := range ops {
 			cos = append(cos, &concOp{op: &sc.Tasks[ti][oi], task: ti, idx: oi})
 			k := ops[oi].K
+			if k == "createDataset" && ops[oi].M != nil && ops[oi].M["race"] == true {
+				// concurrent creation of one name is idempotent: the dataset exists exactly once
+				m.Create(ops[oi].DS)
+				continue
+			}
 			if k == "createDataset" || k == "deleteDataset" || k == "renameDataset" {
 				r.tainted[ops[oi].DS] = true
 				if ops[oi].DS2 != "" {
@@ -275,6 +280,14 @@ func RunConcScenario(sc *Scenario) (vd *Verdict) {
 			}
 			if isWrite(co.op.K) && co.err != nil && co.commitIdx == 0 {
 				r.Stats["writes_rejected"]++
+			}
+			if co.op.M != nil && co.op.M["invalid"] == true {
+				r.Stats["invalid_batches"]++
+				if co.err == nil || co.commitIdx != 0 {
+					fail(viol(sc.Property, "serial", "invalid-batch-accepted", "task %d op %d: a batch containing a nil reference was accepted (err=%v, committed=%v)", co.task, co.idx, co.err, co.commitIdx != 0))
+					return
+				}
+				continue
 			}
 			if isWrite(co.op.K) && co.err == nil && co.commitIdx == 0 {
 				fail(viol(sc.Property, "serial", "ack-without-commit", "task %d op %d acknowledged but no commit was observed", co.task, co.idx))
